@@ -237,7 +237,7 @@ func TestVF_C31(t *testing.T) {
 		"the real DefaultDeduplicateFilter.Filter is run with concurrency 1, 2, 8 and 32 on differently built input maps (two at concurrency 1 and 2, one at 8 and 32: 6 runs per case, filter objects reused across cases as the fetcher does); " +
 		"oracle (own group identity and set arithmetic): every hidden block has a KEPT block of the same group whose sources are a superset; every source of a group is still held by a kept block of that group; DuplicateIDs() == hidden set; same outcome in all 6 runs; " +
 		"distinct = normalised input; non-trivial = the filter hid at least one block")
-	n := r.N(4000, 60000)
+	n := r.N(4000, 100000)
 	r.Require(int64(n)*6, n/4)
 	r.Assume("concurrency >= 1 (NewDeduplicateFilter(0) has no worker and is not a supported configuration)")
 	r.Assume("block ids are unique within one listing (they are map keys)")
